@@ -290,27 +290,18 @@ impl Range {
 
             let is_link = boxed_is_link.unwrap();
             if is_link {
-                let boxed_points_to = FileExt::symlink_points_to(&static_filepath);
-                if boxed_points_to.is_err() {
+                // the link is resolved by the operating system, link may be relative, contain dot segments or point to another link
+                let boxed_resolved_link = std::fs::canonicalize(&static_filepath);
+                if boxed_resolved_link.is_err() {
                     let error = Error {
                         status_code_reason_phrase: STATUS_CODE_REASON_PHRASE.n500_internal_server_error,
-                        message: boxed_points_to.err().unwrap()
+                        message: boxed_resolved_link.err().unwrap().to_string()
                     };
                     eprintln!("{}", &error.message);
                     return Err(error);
                 }
 
-                let points_to = boxed_points_to.unwrap();
-                let reversed_link = &static_filepath.chars().rev().collect::<String>();
-
-                let mut symlink_directory = SYMBOL.empty_string.to_string();
-                let boxed_split = reversed_link.split_once(&FileExt::get_path_separator());
-                if boxed_split.is_some() {
-                    let (_filename, path) = boxed_split.unwrap();
-                    symlink_directory = path.chars().rev().collect::<String>();
-                }
-
-                let resolved_link = FileExt::resolve_symlink_path(&symlink_directory, &points_to).unwrap();
+                let resolved_link = boxed_resolved_link.unwrap().to_string_lossy().to_string();
                 path = resolved_link;
             }
 
